@@ -13,6 +13,7 @@
 import Frrs.Proofs.Compat
 import Frrs.Props.C05
 import Frrs.Proofs.Cli
+import Frrs.Proofs.Pipes
 namespace Frrs.C07
 open Frrs
 set_option linter.unusedSimpArgs false
@@ -121,5 +122,14 @@ theorem ref_selection_means_partial (badRegex argv : List Bytes) (o : Cli.CliOpt
 
 example : ((Cli.okOf (Cli.parseArgs [] [b!"--replace-text", b!"rules.txt", b!"--cleanup", b!"none"])).map (·.cleanup))
     = some Cli.Cleanup.standard := by decide +kernel
+
+
+/-- **a run that is not partial exports every ref**: for every command line, the exporter of a non-partial run is started
+    with `--all` — no branch, tag, remote-tracking ref or stash is left out of the rewrite to keep rooting the old objects
+    (`parse_args` and `build_fast_export_cmd` composed) -/
+theorem full_run_exports_every_ref (c : Pipes.Caps) (badRegex argv : List Bytes) (o : Cli.CliOpts) (args : List Bytes)
+    (hp : Cli.parseArgs badRegex argv = .ok o) (hfull : o.partialRun = false) (hov : o.feOverride = none)
+    (hx : Pipes.exportCmd c o = some args) : b!"--all" ∈ args :=
+  Pipes.full_run_exports_all_refs c badRegex argv o args hp hfull hov hx
 
 end Frrs.C07
